@@ -292,14 +292,21 @@ func NewJPLookupCount(rec *Recorder) int {
 }
 
 func genC18(t *rapid.T) *Scenario {
-	sc := genStandard(t)
+	var sc *Scenario
+	if chance(t, 35, "c18tree") {
+		// log-heavy nested trees: logs several levels below frames that fail later
+		sc = GenTreeScenario(t, TreeCfg{MinFork: 4, MaxFork: 11, MaxInvs: 2, Budget: 12, EmptyData: 15, ValuePct: 30, LowGasPct: 10, LogPct: 30})
+	} else {
+		sc = genStandard(t)
+	}
 	var ex c18Extra
-	ex.Tracer = []string{"struct", "callTracer", "flatCallTracer", "prestateTracer", "4byteTracer", "access", ""}[uniform(t, 0, 6, "tracer")]
+	// the two call tracers are the files the fork modified: they get more weight
+	ex.Tracer = []string{"callTracer", "callTracer", "callTracer", "flatCallTracer", "flatCallTracer", "struct", "prestateTracer", "4byteTracer", "access", ""}[uniform(t, 0, 9, "tracer")]
 	cfg := map[string]bool{}
 	switch ex.Tracer {
 	case "callTracer":
 		cfg["onlyTopCall"] = rapid.Bool().Draw(t, "onlyTopCall")
-		cfg["withLog"] = rapid.Bool().Draw(t, "withLog")
+		cfg["withLog"] = chance(t, 70, "withLog")
 	case "flatCallTracer":
 		cfg["convertParityErrors"] = rapid.Bool().Draw(t, "convertParityErrors")
 		cfg["includePrecompiles"] = rapid.Bool().Draw(t, "includePrecompiles")
